@@ -1,9 +1,25 @@
 #!/bin/sh
 # usage: testmut.sh <Cxx> <diff file> [tier] — runs the check against a scratch worktree of /repo HEAD with the seeded
-# change applied (VERIF_REPO), so that builders working against /repo concurrently are not disturbed.
+# change applied (VERIF_REPO), so that builders working against /repo concurrently are not disturbed.  Evidence and
+# replay files of such a run go to a scratch directory (VERIF_EVIDENCE), never to /verif/evidence.
 p=$1; d=$2; t=${3:-quick}
 wt=/tmp/mutwt-$p-$$
+ev=/tmp/mutev-$p-$$
 git -C /repo worktree add -q --detach $wt HEAD || exit 2
 git -C $wt apply "$d" || { echo "patch does not apply"; git -C /repo worktree remove --force $wt; exit 2; }
-cd /verif && VERIF_REPO=$wt ./check $p --tier $t 2>&1 | grep -v "^  \[" | tail -8
+cd /verif && VERIF_REPO=$wt VERIF_EVIDENCE=$ev ./check $p --tier $t 2>&1 | grep -v "^  \[" | tail -8
+python3 - $ev/$p.json <<'PY'
+import json,sys
+try:
+    e=json.load(open(sys.argv[1]))
+except Exception as ex:
+    print('no evidence file', ex); sys.exit(0)
+import glob,os,re
+keys=set()
+for f in glob.glob(os.path.dirname(sys.argv[1])+'/replay/*.txt'):
+    m=re.search(r'key=(\S+)', open(f,errors='replace').readline())
+    if m: keys.add(m.group(1))
+print('keys:', ', '.join(sorted(keys)))
+PY
 git -C /repo worktree remove --force $wt
+rm -rf $ev
